@@ -99,6 +99,16 @@ CLAIMS = {
              "violates (tversky_loss TypeError, ncc mask shape, tversky weight shape, MI mask, NMI class) are refuted and "
              "listed as known findings. MI/NMI identical/range need properties of log (partial).",
         ref="5 C16"),
+    "C19": dict(
+        technique="Lean 4 induction over programs on a provenance model of the __torch_function__ dispatcher, "
+                  "__getitem__, cat/split, copy/pickle + exact correspondence on random op programs",
+        text="25 theorems: for programs of any length over the op classes where the code is right (elementwise, casts, "
+             "clone, indexing by int/slice/list/tensor, iteration, cat/split/tensor_split along dim 0, chunk/unbind, "
+             "ops along non-batch dims, interpolate, pooling, copy/deepcopy/pickle) every typed result carries one grid "
+             "per entry of matching shape, entry i carrying the grid (and axes) of the item whose data it holds; typed "
+             "ImageBatch results always have matching grid count/shape (demotion); the full statement is refuted with "
+             "small witnesses for each op class the current code mis-describes (13 known findings).",
+        ref="5 C19"),
 }
 
 NOT_APPLICABLE = {}
